@@ -55,10 +55,10 @@ PROPS = {
         assumptions=['object identity = token carried by the instrumented key/value types; Drop logs the token'],
     ),
     'C07': dict(
-        comps=['mon_c07', 'addr_stable', 'bsim', 'api_map', 'api_len', 'api_order', ('res', ['iter'])], corr_only=['bsim'],
-        theorems=['C07_unhinge', 'C07_set_head', 'C07_touch', 'C07_realloc', 'C07_traversal', 'C07_b_touch', 'C07_b_remove', 'C07_b_insert_new', 'C07_b_moves', 'C07_monitor_sound'],
+        comps=['mon_c07', 'addr_stable', 'bsim', 'brefine', 'api_map', 'api_len', 'api_order', ('res', ['iter'])], corr_only=['bsim', 'brefine'],
+        theorems=['C07_unhinge', 'C07_set_head', 'C07_touch', 'C07_realloc', 'C07_traversal', 'C07_b_touch', 'C07_b_remove', 'C07_b_insert_new', 'C07_b_moves', 'C07_public_ops_refine', 'C07_reachable_coherent', 'C07_monitor_sound'],
         assumptions=['Layer B faults on access to unallocated/freed nodes and on reading moved-out or uninitialised payloads; aliasing-model UB is outside the model (DESIGN.md 6, 9.1)',
-                     'the monitor ri_check (proved sound: C07_monitor_sound) is evaluated on the pointer graph the dangling-safe hook walker reports after every step; bucket addresses of surviving entries must be stable unless the table was rebuilt', 'bsim: the extracted Layer B operations (B/OpsB.v: touch_ptr, unhinge, set_head, move, composed as src/lib.rs composes them) are run on the observed pointer graph before each step and must produce exactly the links and recorded sizes observed after it'],
+                     'the monitor ri_check (proved sound: C07_monitor_sound) is evaluated on the pointer graph the dangling-safe hook walker reports after every step; bucket addresses of surviving entries must be stable unless the table was rebuilt', 'bsim: the extracted pointer-level public operation stepB (B/StepB.v, proved to refine stepA: C07_public_ops_refine) is run on the observed pointer graph before each step, with the bucket addresses hashbrown chose, and must produce exactly the links and recorded sizes observed after it; brefine: its result, events and abstract final state must be the ones Layer A computed for that step'],
     ),
     'C08': dict(engine='memsize_check', comps=[],
         theorems=['C08_bulk', 'C08_mem', 'C08_container', 'C08_wrapper', 'C08_depth', 'C08_depth_empty_sections', 'C08_flat_iterator'],
@@ -157,7 +157,7 @@ MANIFEST_TEXT = {
     'C19': dict(text='(1) Theorem C19_model_readonly: every &self operation of the model is the identity on the whole state; (2) Theorem C19_static_no_write over the call graph regenerated from the source: no write primitive is reachable from any &self operation, for all inputs; (3) on the implementation the structural fingerprint (addresses, links, sizes, scalars, geometry) read through the hook is compared before and after every &self call, for present and absent keys, and the fingerprint of every other cache after every operation.', note=_A + '; static graph is a syntactic over-approximation; thread schedules are not executed, the constant-heap argument covers them', technique='Coq proof over the model + Coq proof over a call graph generated from the source + differential fingerprint comparison'),
     'C08': dict(engine='coq-layerM+probe', text='Layer M model of src/mem_size.rs (type/value universe mirroring every override and its delegation, sizeof a Section variable): theorems C08_bulk (all four bulk helpers = element-wise sums for every nesting and list), C08_mem, C08_container, C08_wrapper, C08_depth (the flat iterator uses one frame whatever the number of empty sections), C08_flat_iterator. Tied to the code by a probe over ~300 concrete nested types with values built by random capacity scripts, eight iterator shapes, and 10^6-10^7-element runs on a 256 KiB stack in debug and release; the model is evaluated on the same terms by vm_compute.', note='Coq kernel, no axioms; sizeof is a parameter instantiated by measured numbers; totality of a Gallina function says nothing about the Rust stack: the stack clause is decided by the frame-depth model plus the large-count runs; poisoned locks excluded (DESIGN.md 9.4)', technique='Coq proof by induction on the type universe + model evaluated in Coq against the real trait implementations (differential)', ref='DESIGN.md section 7 (C08), coq/M/README.md'),
     'C09': dict(engine='coq-layerM+probe', text='Theorems C09_exact (for the exact class of constructors and any nesting, heap_size = alloc_bytes, the ground-truth model of what std keeps allocated, under len <= cap well-typedness), C09_upper, C09_map / C09_set (bounds for hash tables), C09_ref. alloc_bytes is validated against a counting global allocator on every probed value, and the real heap_size is compared with both.', note='Coq kernel, no axioms; alloc_bytes is a model of std allocation behaviour validated (exactly, on every probed value) against the counting allocator; hashbrown bucket counts recovered from capacity()', technique='Coq proof + model evaluated in Coq against the real implementation and a counting allocator (differential)', ref='DESIGN.md section 7 (C09), coq/M/README.md'),
-    'C07': dict(text='Layer B (heap of nodes with links, recorded size and payload ownership; any access to a freed node or a moved-out payload faults): theorems C07_unhinge / C07_set_head / C07_touch (list surgery at every position keeps the representation invariant RI and never faults), C07_realloc (for EVERY table iteration order the reallocation loop re-links all entries, frees every old bucket, never touches freed memory, and leaves the abstract list unchanged), C07_traversal (cursors never step onto the seal). The monitor ri_check, proved sound (C07_monitor_sound), is evaluated on the implementation pointer graph read by the dangling-safe hook after every step, with address stability and lookups-hit-the-linked-bucket checks.', note='Coq kernel, no axioms; Layer B transliterates the list surgery and the reallocation loop by hand; the composition of whole public operations from these primitives is argued in DESIGN.md, not proved; Rust aliasing rules not modelled', technique='Coq proof (separation-style reasoning on a functional heap, induction over arbitrary iteration orders) + extracted monitor on hook snapshots'),
+    'C07': dict(text='Layer B (heap of nodes with links, recorded size and payload ownership; any access to a freed node or a moved-out payload faults): theorems C07_unhinge / C07_set_head / C07_touch (list surgery at every position keeps the representation invariant RI and never faults), C07_realloc (for EVERY table iteration order the reallocation loop re-links all entries, frees every old bucket, never touches freed memory, and leaves the abstract list unchanged), C07_traversal (cursors never step onto the seal). The monitor ri_check, proved sound (C07_monitor_sound), is evaluated on the implementation pointer graph read by the dangling-safe hook after every step, with address stability and lookups-hit-the-linked-bucket checks.', note='Coq kernel, no axioms; Layer B transliterates the list surgery and the reallocation loop by hand; the composition of every public operation from these primitives is Layer B stepB, proved to refine Layer A (C07_public_ops_refine, C07_reachable_coherent) and run on the observed pointer graphs; the table is modelled as the set of listed buckets (hash probing is hashbrown, trusted); Rust aliasing rules not modelled', technique='Coq proof (separation-style reasoning on a functional heap, induction over arbitrary iteration orders) + extracted monitor on hook snapshots'),
     'C17': dict(text='Theorem C17_taking_run (Layer B, payload ownership): for every pattern and prefix a taking iterator never reads a moved-out payload, moves out exactly what it yielded, each once, leaves all other buckets live and links untouched; C17_drain_forget (Layer A): a forgotten Drain leaves an empty consistent cache, drops nothing, leaks exactly the unconsumed; C17_into_iter_forget. On the implementation every generated trace forgets iterators after random prefixes and keeps using and dropping the caches; any token dropped twice or dropped after being handed back is a violation.', note=_A + '; borrowing iterators own nothing', technique=_T),
     'C16': dict(text='Model of every point at which an operation calls user code (A/PanicA.v: panic_points, with the state an unwinder finds and the tokens unwinding drops). Theorem C16_all_points: for every operation, state, oracle and EVERY such point the accounting invariant holds (current_size = sum of recorded sizes <= max_size, distinct keys), nothing held appeared from nowhere, and nothing dropped by unwinding is still held; C16_closure / C16_predicate: at closure / predicate points nothing is lost except what the predicate rejected; C16_clone: the source is untouched. Correspondence: panic_trace injects a panic at every callback of every candidate operation in generated states of the real crate (debug and release); the state found after catch_unwind must be the state the model lists for that point, the pointer graph must satisfy ri_check, and the cache is used further and dropped with identity-level drop tracking.', note=_A + '; pointer-level coherence at a panic point follows from callbacks sitting only between the list-surgery primitives proved in Layer B (argued from the structure of panic_points, not a separate theorem)', technique='Coq proof over a model of all callback points + systematic fault injection on the implementation compared with the model (fault enumeration)'),
 }
